@@ -62,9 +62,7 @@ func diff(a, b world, except string) string {
 		if k == except {
 			continue
 		}
-		ja, _ := json.Marshal(a[k])
-		jb, _ := json.Marshal(b[k])
-		if string(ja) != string(jb) {
+		if a[k].Canon() != b[k].Canon() {
 			return fmt.Sprintf("key %s changed: before %s, after %s", k, a[k].Canon(), b[k].Canon())
 		}
 	}
